@@ -2,8 +2,9 @@
 # usage: tools/try_seed.sh <patch.diff> <Cxx> [<Cxx>...]  — applies a seeded change to /repo, runs the checks, reverts.
 P=$1; shift
 cd /repo && git status --porcelain | grep -q . && { echo "/repo not clean"; exit 2; }
-git apply "$P" || { echo "patch does not apply"; exit 2; }
+git apply "$P" || git apply -3 "$P" || { echo "patch does not apply"; exit 2; }
 cd /verif
+rm -rf /verif/.work/evidence.bak && cp -r /verif/evidence /verif/.work/evidence.bak
 for c in "$@"; do
   timeout 3000 ./check $c ${TIER:-quick} 2>&1 | grep -E "VIOLATION|KNOWN-FINDING|\[check\]" | cut -c1-400
   for f in $(ls -t replays/$c-* 2>/dev/null | head -2); do python3 - "$f" <<'PY'
@@ -14,4 +15,5 @@ PY
   done
 done
 git -C /repo checkout -- . && git -C /repo status --porcelain | head -3
+rm -rf /verif/evidence && mv /verif/.work/evidence.bak /verif/evidence
 rm -f /verif/replays/*
